@@ -4,3 +4,6 @@ package dvid
 
 // VerifPoint is a no-op unless built with the "verif" tag.
 func VerifPoint(site string, id uint64) {}
+
+// VerifEvent is a no-op unless built with the "verif" tag.
+func VerifEvent(kind string, fields ...interface{}) {}
